@@ -223,7 +223,17 @@ def report(ctx, res, what=None):
 
 def regenerate_all(repo=None):
     """Used by ./check --setup so that `lake build TexelVerif` (root imports Bridge/*) finds the generated files."""
-    return regenerate(None, all_modules(), repo)
+    res = regenerate(None, all_modules(), repo)
+    try:        # the lock/wait facts of C09/C10 (Bridge/LockFacts.lean, Bridge/WaitFacts.lean import Generated/LockFacts.lean)
+        import locktie
+        with open(os.path.join(CACHE, "lock"), "w") as lk:
+            fcntl.flock(lk, fcntl.LOCK_EX)
+            g = locktie.generate(repo or vlib.REPO, GEN_DIR, CACHE)
+        if not g["ok"]:
+            print("setup: locktie extraction failed:", g["error"])
+    except Exception as e:      # never let the set-up of the other properties depend on this
+        print("setup: locktie:", e)
+    return res
 
 
 if __name__ == "__main__":
